@@ -10,7 +10,8 @@ from . import effects
 # ------------------------------------------------------------------ affine obligations
 import re as _re
 _OPAQUE_CALL = _re.compile(r"\.(argmin|argmax|item|nonzero|unique|argsort|searchsorted|index|find|count)\(")
-KNOWN_BOUNDED_PREFIXES = ["p_value["]        # c19: argmin over a row of the p-value matrix is < l (allocation confirmed there)
+TRUSTED_LOCAL_EXTENTS = set()      # locals whose extents a property module has tied to parameters by its own facts
+KNOWN_BOUNDED_PREFIXES = [r"p_value(@\d+)?\["]        # c19: argmin over a row of the p-value matrix is < l (allocation confirmed there)
 
 
 def decide_states(ai, fi, stmt, mk_obls, rule, role, scope=(-3, 8), extra_facts=None):
@@ -38,7 +39,20 @@ def decide_states(ai, fi, stmt, mk_obls, rule, role, scope=(-3, 8), extra_facts=
                 wit = {k: v for k, v in sorted(model.items()) if k in rel}
                 # a counter-model that has to pick the value of a call result the engine knows nothing about (x.argmin(), x.item(), ...)
                 # is not evidence: the engine has no bounds for it.  Module-specific axioms can declare prefixes whose bounds are known.
-                op = [a for a in rel if _OPAQUE_CALL.search(a) and not a.startswith(tuple(KNOWN_BOUNDED_PREFIXES))]
+                op = [a for a in rel if _OPAQUE_CALL.search(a) and not any(_re.match(p_, a) for p_ in KNOWN_BOUNDED_PREFIXES)]
+                op += [a for a in rel if a in getattr(ai, "free_atoms", ())]      # loop variable over a domain the engine could not read
+                # extent of a LOCAL array / sequence the engine has no model for (its shape is whatever built it)
+                params_ = set(fi.params)
+                exts, local_exts = [], []
+                for a in rel:
+                    m_ = _re.match(r"^(?:len\()?(\w+?)(?:[@~]\d+)?(?:\.shape\[|\))", a)
+                    if m_ and "//" not in a:
+                        exts.append(a)
+                        if m_.group(1) not in params_ and m_.group(1) not in TRUSTED_LOCAL_EXTENTS:
+                            local_exts.append(a)
+                # the extent of a LOCAL array next to another extent: the engine has no model of how the two are related
+                if local_exts and len(set(exts)) >= 2:
+                    op.append(local_exts[0])
                 if op:
                     return unrecognised(rule, fi, role, "obligation `%s` depends on `%s`, a call result the engine has no bounds for" % (label, op[0]), stmt)
                 return violation(rule, fi, role,
